@@ -2,13 +2,17 @@
      Model/Rebuild.v   map_pieces, match_v1 (with find_matches inside)        -- C13, C14
      Model/CopyPath.v  copypath_run on an association-list filesystem          -- C14
      Model/PathSafe.v  safe_comp, check_parts_model, resolve, checked_target   -- C19, C13
+     Model/RebuildMeta.v  metadata_of_bytes (pyloads + Metadata.__init__/extract/_parse_tree), safe_b,
+                          utf8_valid, rebuild_v2 (Metadata._match_v2 on the extracted entries)    -- C13, C14, C19
    Directives used: ExtrOcamlBasic, ExtrOcamlString (which re-exports ExtrOcamlChar); none of our own. *)
 From Coq Require Import ExtrOcamlBasic ExtrOcamlString ZArith.
 From TF Require Import Lib.Base Model.Rebuild Model.CopyPath Model.PathSafe.
+From TF Require Model.Bencode Model.RebuildMeta.
 Definition wire_z (z : Z) : Z := Z.succ z.
 Definition wire_nat (n : nat) : nat := S n.
 Extraction Language OCaml.
 Extraction "../ocaml/build/rebuild/extracted.ml" wire_z wire_nat
   map_pieces match_v1
   copypath_run fs_of_list lookup
-  safe_comp check_parts_model resolve checked_target.
+  safe_comp check_parts_model resolve checked_target
+  RebuildMeta.metadata_of_bytes RebuildMeta.rebuild_v2 RebuildMeta.safe_b RebuildMeta.utf8_valid RebuildMeta.x_is_v2.
